@@ -165,8 +165,13 @@ def set_rect(x, p):
     rect = mk_block(x, 't', p['shape'], 0, 255)
     cx = x.int('x', 0, 127)
     cy = x.int('y', 0, 63)
+    arg = rect
+    if p.get('one_shot'):
+        # "an iterable of iterables": generators and iterators that can be
+        # walked only once
+        arg = (iter(row) for row in rect)
     try:
-        mp.set_rect_tiles(rect, cx, cy)
+        mp.set_rect_tiles(arg, cx, cy)
     except Exception as e:
         x.check('set_rect_tiles clips instead of raising', False,
                 info=repr(e))
@@ -607,7 +612,8 @@ HARNESSES = [
                    dict(Q, w=3, h=1, corners=True)],
             thorough=[dict(Q, w=a, h=b) for a in (1, 2, 3) for b in (1, 3)]),
     Harness('set_rect', set_rect, logic='QF_AUFBV',
-            quick=[dict(Q, shape=[2]), dict(Q, shape=[1, 2])],
+            quick=[dict(Q, shape=[2]), dict(Q, shape=[1, 2]),
+                   dict(Q, shape=[2, 1], one_shot=True)],
             thorough=[dict(Q, shape=[2]), dict(Q, shape=[3, 1, 2]),
                       dict(Q, shape=[3, 3, 3], _budget=900)]),
     Harness('rect_pixels', rect_pixels, logic='QF_AUFBV',
